@@ -355,6 +355,9 @@ def run_history(seed):
                     mech = 'agreement-reported-without-any-version'
                 elif len(poll_versions(last, known, 'drop-unknown')) == 1:
                     mech = 'agreement-reported-ignoring-peer-of-unknown-state'
+                elif len(poll_versions({'local': last['local'], 'states': last['states'],
+                                        'rows': [(a, v) for a, v in last['rows'] if port_of[a] == 9042]}, known)) == 1:
+                    mech = 'agreement-reported-ignoring-peer-on-non-default-native-port'
                 else:
                     mech = 'agreement-reported-on-differing-versions'
                 viol.append((mech, 'verdict True but the last poll served versions %r' % (sorted(str(v) for v in poll_versions(last, known)),), wit))
